@@ -218,12 +218,13 @@ def check_case(ctx, case):
         ctx.note(key_of(rows), True, 'completeness_boxes', 'style_' + case['style'])
         want = tuple(case['want'])
         want = (want[0], tuple(want[1])) + tuple(F(x) for x in want[2:])
-        rects = [e for e in sc.els if e[0] == 'rect']
-        others = [e for e in sc.els if e[0] not in ('rect', 'text')]
+        leaves = sc.leaves()
+        rects = [e for e in leaves if e[0] == 'rect']
+        others = [e for e in leaves if e[0] not in ('rect', 'text')]
         if msg is None and (rects != [want] or others):
             msg = 'closed box is not emitted as exactly the rect %s: got %s' % (show_el(want), [show_el(e) for e in sc.els[:4]])
         if msg is None:
-            texts = sorted((e[3], e[2], e[4]) for e in sc.els if e[0] == 'text')
+            texts = sorted((e[3], e[2], e[4]) for e in leaves if e[0] == 'text')
             ax, ay = ctx.anchor()
             wt = sorted((F(y * 16) + ay, F(x * 8) + ax, t) for x, y, t in case['texts'])
             if texts != wt:
